@@ -605,8 +605,18 @@ def gen_scoped(rng):
         m = rng.choice(methods)
         free = [c for c in PROG_EXC if c not in mthr(m)]
         if free and rng.chance(2, 3):
-            m[4].insert(rng.below(len(m[4])), ["throwc", g.cond([]), rng.choice(free)])
-            bad = "uncaught-throw"
+            # preferably a class that a do/catch or a closure signature EARLIER in the method catches (a scope that is
+            # not popped / not taken off again would wrongly cover it), thrown at the end of the body
+            acc = []
+            blocks_of(m[4], acc, "method")
+            inner = sorted(set(c for b, _ in acc for st in b if st[0] in ("doc", "letc")
+                               for c in (st[2] if st[0] == "doc" else (st[4] or [])) if c in free))
+            if inner and rng.chance(2, 3):
+                m[4].insert(len(m[4]) - 1, ["throwc", g.cond([]), rng.choice(inner)])
+                bad = "uncaught-throw-after-inner-scope"
+            else:
+                m[4].insert(rng.below(len(m[4])), ["throwc", g.cond([]), rng.choice(free)])
+                bad = "uncaught-throw"
         else:
             bad = inject_error(rng, prog)
     g.dist["scoped_program"] = 1
@@ -962,7 +972,10 @@ def run_family(ctx, elk, m, fams, tag, budget):
     progs, meta = [], {}
     model_in = {}
     seen_global = set()
-    for pid, prog, core in fams:
+    default_budget = budget
+    for fam in fams:
+        pid, prog, core = fam[:3]
+        budget = fam[3] if len(fam) > 3 and fam[3] is not None else default_budget
         progs.append((pid, elk_program(prog)))
         meta[pid] = (pid, "original", "", prog, core)
         edits = all_edits(prog)
@@ -1021,7 +1034,7 @@ def run_family(ctx, elk, m, fams, tag, budget):
     srcs = dict(progs)
     st = dict(programs=len(fams), edits=0, elk_runs=len(progs), accepted_originals=0, rejected_originals=0,
               model_compared=0, mismatches=0, by_edit={}, distinct=set(), reject_reasons={}, foreign_crashes=0,
-              foreign_reasons={})
+              foreign_reasons={}, insert_classes={})
     fails = []
     for eid, (pid, label, detail, p, core) in meta.items():
         o = observe(res[eid])
@@ -1040,6 +1053,8 @@ def run_family(ctx, elk, m, fams, tag, budget):
         else:
             st["edits"] += 1
             st["by_edit"][label] = st["by_edit"].get(label, 0) + 1
+            if label == "insert":
+                st["insert_classes"][detail] = st["insert_classes"].get(detail, 0) + 1
             o0 = observe(res[pid])
             if o0[0] in ("X", "E"):
                 continue
@@ -1099,30 +1114,46 @@ def corpus_programs():
             line = line.strip()
             if line and not line.startswith("#"):
                 d = json.loads(line)
-                out.append(("k%d" % n, d["prog"], d["core"]))
+                out.append(("k%d" % n, d["prog"], d["core"], d.get("budget")))
     return out
 
 
 def run(ctx):
     ctx.explanation = (
-        "Proved in Coq on a mini checker that is a state machine over the context registers of types/checker "
-        "(returnType, throwType, mode, local environment, diagnostics counter) with the save/restore points of "
-        "checkMethod for method definitions and closure literals (Model/C12_Checker.v; methods without parameters, "
-        "statements x := e, x = e, e, return e; expressions literals, locals, closure literals `-> e`, parentheses, "
-        "f.(), m()): with the FIXED register handling (previous returnType/throwType restored on exit) inserting an "
-        "unused local with a value or closure initialiser before any statement of any method body, or anywhere in the "
-        "top-level statements, leaves the number of diagnostics - hence the verdict - unchanged; any injective "
-        "renaming of a method's locals and any redundant parentheses leave the whole checker state unchanged; any "
-        "permutation of method definitions with distinct names leaves the number of diagnostics unchanged; with "
-        "the register handling as found the first statement is false (witness proved). NOT proved: equality of "
-        "program output, and everything outside the fragment (parameters, block closures with "
-        "explicit returns, generators/yield, if/while/do-catch/throw, arithmetic): these are covered by the "
-        "metamorphic stream only, which runs every generated program and its edited variants on the real elk and "
-        "requires equal verdict, equal number of diagnostics and equal stdout. For programs inside the fragment the "
-        "extracted checker's verdict is compared with elk's on the original and on every edited variant.")
+        "Proved in Coq on two mini checkers that are state machines over the context registers of types/checker with "
+        "the save/restore points of checkMethod for method definitions and closure literals. (1) Model/C12_Checker.v "
+        "(returnType, throwType, mode, locals, diagnostics counter; methods without parameters; x := e, x = e, e, "
+        "return e; literals, locals, closure literals `-> e`, parentheses, f.(), m()): with the FIXED register handling "
+        "(previous returnType/throwType restored on exit - the code as it is now) inserting an unused local with a value "
+        "or closure initialiser before any statement of any method body, or anywhere in the top-level statements, leaves "
+        "the number of diagnostics - hence the verdict - unchanged; any injective renaming of a method's locals and any "
+        "redundant parentheses leave the whole checker state unchanged; any permutation of method definitions with "
+        "distinct names leaves the number of diagnostics unchanged; with the register handling as first found the first "
+        "statement is false (witness proved). (2) Model/C12_Scopes.v adds the catchScopes register as a STACK (saved, "
+        "emptied, the declared throw type pushed, the saved stack put back by checkMethod; pushed / popped around a "
+        "do/catch body), throw signatures of methods and closure literals, closure parameters and declared return types, "
+        "the inherited inference flags, `throw`, do/catch, calls of throwing methods and closures, block bodies: "
+        "C12_unused_local_scoped(_main): inserting `x := v` - v a value literal or a self-contained closure literal "
+        "(parameters, declared return / throw type, covered throws, do/catch, further such closures, to any depth) - "
+        "before any statement of ANY block at any depth (method body, do body, catch handler, closure body) leaves the "
+        "number of diagnostics unchanged; C12_scopes_restored: every expression / block leaves the registers including "
+        "the catch-scope stack as they were; C12_closed_value_inert. Coq lists are immutable, so the model states the "
+        "intended save/restore of the stack; an implementation that lets the restored slice alias the working one "
+        "deviates from the model and is found by the stream. Renaming (closure parameters included), parentheses and "
+        "reordering are proved on model (2) as well (C12_rename_scoped, C12_parens_scoped, C12_reorder_scoped). "
+        "NOT proved: equality of program output, and everything outside the fragments (generators/yield, "
+        "if/while, arithmetic, early returns): covered by the metamorphic stream only, which runs every generated program "
+        "and its edited variants on the real elk and requires equal verdict, equal number of diagnostics and equal "
+        "stdout. For programs inside a fragment the extracted checkers' verdicts are compared with elk's on the original "
+        "and on every edited variant; for every inserted initialiser the extracted closed_value says whether it lies in "
+        "the theorem's class (counted in the evidence).")
     ctx.trusted_base += [
         "Python generator, printer, edit functions and the translation to the model's input (checks/C12.py)",
         "the model types `x := -> e` by checking the closure before declaring x (no recursive closures are generated)",
+        "Model/C12_Scopes.v: exception classes are unrelated siblings (the generator uses FormatError, OutOfRangeError, "
+        "ZeroDivisionError, IndexError), local environments are flat (generated names are fresh), the condition of "
+        "`throw C(..) if a > b` is dropped by the translation (Int comparison, cannot produce a diagnostic), the handler "
+        "of a two-class catch is checked once by the model and once per clause by elk (only verdicts are compared)",
     ]
     ctx.run_proof_gate()
     elk = vlib.build_elk()
@@ -1143,17 +1174,34 @@ def run(ctx):
     for k, v in st_c["by_edit"].items():
         by_edit[k] = by_edit.get(k, 0) + v
     ctx.stream(STREAM, tot("edits") + tot("programs"), len(st["distinct"] | st_c["distinct"]),
-               "seeded type-directed programs: 1-3 methods (typed plain methods; generator methods in extended "
-               "programs) with locals, literals, closures `-> e`, f.(), m(), parentheses (core = exactly the model's "
-               "fragment, every third program) plus arithmetic, comparisons, prints, if, while, do/catch with throw, "
-               "closures with a parameter / block body / explicit returns, early returns, yield (extended); one "
-               "program in six gets an injected type error; edits: unused local (Int / String / closure `-> 1` / "
-               "block closure) before a statement of any block, local renamed, sub-expression parenthesised, methods "
-               "rotated / reversed; evaluation = one program run on elk and compared (edited variants with their "
-               "original: verdict, diagnostics count, stdout; core programs also with the extracted checker's "
-               "verdict); non-trivial = distinct program text",
-               [{"program": elk_program(p)} for _, p, _ in fams[:3]],
+               "seeded type-directed programs, three families in turn: core (exactly the fragment of Model/C12_Checker.v: "
+               "1-3 typed methods with locals, literals, closures `-> e`, f.(), m(), parentheses), scoped (the fragment of "
+               "Model/C12_Scopes.v, well-typed by tracking the catch-scope stack: methods with throw signatures of 1-2 "
+               "classes, `throw C(..) if c`, do/catch with 1-2 classes nested to depth 2, closures with parameters / declared "
+               "return type / declared or inferred throw type / do/catch / nested closures, calls of throwing methods and "
+               "closures inside covering scopes), extended (arithmetic, comparisons, prints, if, while, do/catch, block "
+               "closures with explicit returns, early returns, generators with yield); one program in five or six gets an "
+               "injected error (wrong type, undefined local, call of a non-closure, uncaught throw); edits: an unused local "
+               "- Int, String, closure `-> 1`, block closure with parameter and return, closure with parameter + return type "
+               "+ throw signature, `||! C -> throw ..; 1`, closure containing do/catch, closure containing a throw-annotated "
+               "closure, closure with inferred throw type - before a statement of ANY block (method body, if/else, loop, "
+               "do body, catch handler, closure body, top level and its do/catch bodies); local renamed; sub-expression "
+               "parenthesised; methods rotated / reversed. With a per-program budget the insert classes (initialiser kind x "
+               "block kind x next return/yield/throw/throwing call) in which the initialiser touches a register (returnType, "
+               "catch-scope stack) that the following statement reads are taken first, classes not yet covered in the run "
+               "before the others; evaluation = one program run on elk and compared (edited variants with their original: "
+               "verdict, diagnostics count, stdout; core and scoped programs also with the extracted checkers' verdicts); "
+               "non-trivial = distinct program text",
+               [{"program": elk_program(f[1])} for f in fams[:3]],
                dict(constructs=dist, programs=tot("programs"), edited_variants=tot("edits"), edits_by_kind=by_edit,
+                    insert_classes_covered=len(set(st["insert_classes"]) | set(st_c["insert_classes"])),
+                    insert_classes_register_interaction=len([k for k in set(st["insert_classes"]) | set(st_c["insert_classes"])
+                                                             if set(TOUCHES[k.split(":")[0]]) & set(READS[k.split(":before-")[1]])]),
+                    compared_with_scopes_model=st.get("model_compared_scopes", 0) + st_c.get("model_compared_scopes", 0),
+                    inserted_initialiser_in_theorem_class=st.get("inserted_initialiser_in_theorem_class", 0)
+                    + st_c.get("inserted_initialiser_in_theorem_class", 0),
+                    inserted_initialiser_outside_theorem_class=st.get("inserted_initialiser_outside_theorem_class", 0)
+                    + st_c.get("inserted_initialiser_outside_theorem_class", 0),
                     elk_runs=tot("elk_runs"), accepted_originals=tot("accepted_originals"),
                     rejected_originals=tot("rejected_originals"), compared_with_model=tot("model_compared"),
                     mismatches=tot("mismatches"), reject_reasons=st["reject_reasons"],
